@@ -191,6 +191,10 @@ def mixed_texts(rng, ast):
     out.append("%s%s*" % (rng.choice("-~"), t))
     out.append("(%s%s)" % (rng.choice("-~"), t))
     out.append("%s,%s%s and %s" % (rng.choice(TAGS), rng.choice("-~"), t, rng.choice(TAGS)))
+    # old-style tags may carry a ':N' limit -- mixed text stays mixed text with one
+    lim = rng.choice([1, 3, 12])
+    out.append("%s@%s:%d %s @%s" % (rng.choice("-~"), t, lim, rng.choice(["and", "or"]), rng.choice(TAGS)))
+    out.append("%s:%d and not %s%s" % (rng.choice(TAGS), lim, rng.choice("-~"), t))
     return out
 
 
